@@ -5,6 +5,7 @@ Theorems about `Ctl.run` (L6) for EVERY event list, any concurrency, budget, sam
 Float laws used: none.
 -/
 import CambrianModel.Lemmas.CtlStep
+import CambrianModel.Lemmas.PopInv
 namespace Cambrian.Props
 open Cambrian Cambrian.Ctl
 
@@ -19,6 +20,14 @@ theorem C05_le (c : Cfg) (ss : Nat) (iv : Option V) (d : V) (chs : Nat → Algo.
 theorem C05_inflight_seeds_nodup (c : Cfg) (ss : Nat) (iv : Option V) (d : V) (chs : Nat → Algo.Choice V)
     (evs : List (Ev V)) : (seedsOf (run c ss iv d chs evs).1.inflight).Nodup :=
   (run_inv c ss iv d chs evs).nd
+
+/-- One individual is never being evaluated twice at the same time, and an individual that is being evaluated is
+    not in the population (re-evaluation takes it out; new ids are fresh): the ids of the population entries and of
+    the evaluations in progress are pairwise distinct - for every schedule, sample size and random decisions. -/
+theorem C05_unique (c : Cfg) (ss : Nat) (hss : 0 < ss) (v0 d : V) (chs : Nat → Algo.Choice V) (evs : List (Ev V)) :
+    ((run c ss (some v0) d chs evs).1.core.pop.map (·.id) ++
+     (run c ss (some v0) d chs evs).1.inflight.map (·.2.id)).Nodup :=
+  (run_popInv c ss hss v0 d chs evs).idsNodup
 
 /-- Work conservation: while the run is neither stopping (no abort latched: no termination request, no failure)
     nor over, exactly `min(num_concurrent, remaining budget)` evaluations are in progress - a finished evaluation
